@@ -132,7 +132,12 @@ def plan_C17(ctx):
     cfgs = ["Gen_C17_q.cfg", "Gen_C17_q2.cfg"] if ctx.quick else ["Gen_C17_t.cfg", "Gen_C17_t2.cfg"]
     ctx.constants = {c: open(os.path.join(vcore.TLA, c)).read().split("SPECIFICATION")[0].split() for c in cfgs}
     for c in cfgs:
-        ctx.replay("Gen_C17.tla", c, hs, tag="asan-" + c[:-4], timeout=3000, xss="64m")
+        if ctx.quick:
+            ctx.replay("Gen_C17.tla", c, hs, tag="asan-" + c[:-4], timeout=3000, xss="64m")
+        else:
+            # thorough: every case in the release build, a 1-in-8 hash sample of the same cases under ASan+UBSan
+            ctx.replay("Gen_C17.tla", c, h, tag=c[:-4], timeout=3400, xss="64m")
+            ctx.replay("Gen_C17.tla", c, hs, ["--sample", "8"], tag="asan-sample-" + c[:-4], timeout=3400, xss="64m")
     ctx.exhaustive = True
     n = 300 if ctx.quick else 4000
     trace_stage(ctx, h, ["--record", str(n)], "Trace_C17.tla", "Trace_C17.cfg")
